@@ -23,6 +23,7 @@ META = {
         "an empty known list. Not decided: the full truth table over all configurations (that would be evaluating the decision list)."
     ),
 }
+META["explanation"] += ' C10.R3/R4 are read off the complete decision table of _is_wanted_addrs (predeval.py); R3 also: no remembered verdict keyed on a subset of the arguments. C10.R7: the filter configuration is written only in constructors.'
 
 P = "ramses_tx.protocol"
 MIX = f"{P}._DeviceIdFilterMixin"
